@@ -35,7 +35,10 @@ CLAIMED = {
  "C03": C("Proof (Coq) at handler level: for ALL operand pairs a wrongly typed operand of any of the 24 numeric/bit/ordering operators, of "
           "||, &&, beginWith, endWith, in is an error (C03_type_errors, by case analysis not sampling), no coercion (C03_no_coercion), boolean "
           "logic / equality / membership are the documented functions (C03_logic), bit results are the 64-bit two's-complement wrap "
-          "(C03_twos_complement); decimal exactness in C09. " + TIE + "Oracle: an independent denotation with exact rationals, every operator x "
+          "(C03_twos_complement); division - rust_decimal's div_impl transcribed at integer level and compared mantissa-and-scale on every run - "
+          "returns the exact quotient when it says so and otherwise a value within half a unit in its last place (C03_division_exact_when_reported, "
+          "C03_division_correctly_rounded: loop invariant q*D + r = A*10^k, half-even rounding on every exit, unscale removes only factors of ten); "
+          "decimal exactness of + - * % in C09. " + TIE + "Oracle: an independent denotation with exact rationals, every operator x "
           "every pair of a 46-value pool.", "Coq kernel; Value.v transcribes operator.rs/function.rs handlers; rust_decimal modelled (contract).",
           "Coq case-analysis proofs over the handler model + oracle-checked differential correspondence", "6/C03"),
  "C04": C("Proof (Coq) at handler level: division/remainder by zero, decimal overflow, a shift count outside 0..=63, a non-integral or "
